@@ -79,7 +79,11 @@ impl Story {
                 }
             } else if current_divert.is_external {
                 self.call_external_function(
-                    &current_divert.get_target_path_string().unwrap(),
+                    &current_divert.get_target_path_string().ok_or_else(|| {
+                        StoryError::InvalidStoryState(
+                            "External function call without a name.".to_owned(),
+                        )
+                    })?,
                     current_divert.external_args,
                 )?;
                 return Ok(true);
@@ -311,7 +315,9 @@ impl Story {
                 CommandType::Turns => {
                     let current_turn = self.get_state().current_turn_index;
                     self.get_state_mut()
-                        .push_evaluation_stack(Rc::new(Value::new::<i32>(current_turn + 1)));
+                        .push_evaluation_stack(Rc::new(Value::new::<i32>(
+                            current_turn.wrapping_add(1),
+                        )));
                 }
                 CommandType::TurnsSince | CommandType::ReadCount => {
                     let target = self.get_state_mut().pop_evaluation_stack()?;
@@ -446,7 +452,10 @@ impl Story {
                                 "Visit index requested outside of a container.".to_owned(),
                             )
                         })?;
-                    let count = self.get_state_mut().visit_count_for_container(&cpc) - 1; // index
+                    let count = self
+                        .get_state_mut()
+                        .visit_count_for_container(&cpc)
+                        .wrapping_sub(1); // index
                     // not count
                     self.get_state_mut()
                         .push_evaluation_stack(Rc::new(Value::new::<i32>(count)));
